@@ -22,7 +22,7 @@ CHECKS["C01"] = {
     "text": "Every baseline request of a grammar x every mutation operator at every segment (pairs in thorough), every byte substitution/insertion/deletion "
             "from a fixed alphabet at every offset, and all token strings up to depth d over five framing sub-languages are read both by an independent strict "
             "RFC 9112 reader and by the real HttpRequestParser; boundaries, method, target, version, field list, body bytes and chunk ends must agree, "
-            "MUST-reject streams must be rejected, and representatives go through a real RequestHandler (4xx + close).",
+            "MUST-reject streams must be rejected, and representatives go through a real RequestHandler (4xx + close). The reference rejects what the statement names: a coding before the final chunked, an empty Transfer-Encoding, a chunk extension outside the grammar.",
     "note": TRUST + " The reference reader (refs/http1.py) is three-valued: where RFC 9112 says MAY/SHOULD and the property names nothing the verdict is EITHER and only earlier messages are compared.",
 }
 CHECKS["C03"] = {
@@ -31,7 +31,7 @@ CHECKS["C03"] = {
     "technique": "exhaustive cut enumeration (all 1-cuts, 2-cuts, byte-at-a-time, all 2^(n-1) for n<=12) vs the un-cut run",
     "text": "For each stream of the request corpus (baselines, every single mutation, limit-approach inputs incl. pipelined ones) and a response corpus, under "
             "equal, unequal and tiny-buffer limit configurations, every segmentation of the stated classes is fed to the real parser followed by feed_eof and "
-            "compared field by field with the un-cut run: verdict, limit verdict, messages, bodies, chunk ends, tail. After a body that the parser failed without raising, the continuation must not depend on segmentation either; responses at their limits under CRLF / LF / CR CR LF endings.",
+            "compared field by field with the un-cut run: verdict, limit verdict, messages, bodies, chunk ends, tail. After a body that the parser failed without raising, the continuation must not depend on segmentation either; responses at their limits under CRLF / LF / CR CR LF endings. Chunk boundaries are observed the way an application sees them (readchunk() between the reads), including chunks of a compressed body that decode to nothing.",
     "note": TRUST + " Oracle is the un-cut run of the same implementation; payload streams are drained after every feed so a paused parser is resumed.",
 }
 CHECKS["C10"] = {
@@ -40,7 +40,7 @@ CHECKS["C10"] = {
     "technique": "exhaustive stream/cut/limit enumeration with exception-class, limit, retained-bytes and call-count monitors",
     "text": "All corpus streams x all single cuts x limit configs, hostile request-targets, limit-1/limit/limit+1 inputs in every syntactic position, response corpus with byte "
             "mutations: only HttpProcessingError may leave the parsers, over-limit inputs are rejected and within-limit ones are not, retained bytes are bounded after every "
-            "feed, call counts grow linearly on doubling families, and the real server/client protocol turn errors into 400 / client errors without anything escaping. Every limit case and the trailer section's field rules also go through the real server with a body-reading and a non-reading handler (protocol error => 400).",
+            "feed, call counts grow linearly on doubling families, and the real server/client protocol turn errors into 400 / client errors without anything escaping. Every limit case and the trailer section's field rules also go through the real server with a body-reading and a non-reading handler (protocol error => 400). Requests whose interpreted header fields (Expect, Host, Forwarded, Range, ...) carry non-UTF-8 or ill-formed values go through the real server with a handler that touches every request attribute under a CPU deadline; CR-only continuations of a line and fields folded over several lines are part of the limit inputs.",
     "note": TRUST + " Work is measured as Python call events on enumerated families only; a field's size is the length of its whole line.",
 }
 
@@ -50,7 +50,7 @@ CHECKS["C07"] = {
     "technique": "deviation-bounded exhaustive schedule exploration of the real BaseConnector on a virtual event loop",
     "text": "N=2..3 (4 in thorough) client tasks x host maps x (limit, limit_per_host) x waiter-queue order run the real connect()/release()/close() on a virtual loop; "
             "every schedule with at most d deviations (attempt failure, alternative release mode, cancel of any task, connector.close(), several events in one pass, timer first) "
-            "is executed; a harness ledger is compared with the limits and the connector's own sets after every pass, and lost wake-ups, leaks and close() effects are checked at quiescence. Also with client tracing whose callbacks really suspend (every connection trace point is then an await point) and an orphaned-connection oracle (every transport created is closed or pooled once all requests ended).",
+            "is executed; a harness ledger is compared with the limits and the connector's own sets after every pass, and lost wake-ups, leaks and close() effects are checked at quiescence. Also with client tracing whose callbacks really suspend (every connection trace point is then an await point) and an orphaned-connection oracle (every transport created is closed or pooled once all requests ended). Compound events (a release, a new request and close() in one loop iteration) are part of the fault menu.",
     "note": TRUST + " _create_connection awaits a harness future; waiter shuffle is identity or reversal; bound d=2 quick, 3 thorough.",
 }
 
@@ -61,7 +61,7 @@ CHECKS["C05"] = {
     "text": "About 70 scenarios (pipelines of 1..40 requests with and without bodies, hostile inputs, 9 handler behaviours) run a real web.Application behind a real RequestHandler "
             "on the in-memory wire; every schedule with at most d deviations (inbound segmentation, write buffer full/flush, peer close/reset at any pass, timer before I/O, "
             "several events per pass) is executed.  An independent framer cuts the server's output; order, count, well-formedness, 4xx+close for unparsable input, the queue bound, "
-            "no escaping exception, no loop-handler call and 'no open connection with an unanswered request and an idle handler' (at every quiescent point) are checked. Also: 34/70 sequential requests whose bodies arrive late on one connection (history), handlers that fail or swap the response after the head is out, upgrade requests carrying a body that are declined.",
+            "no escaping exception, no loop-handler call and 'no open connection with an unanswered request and an idle handler' (at every quiescent point) are checked. Also: 34/70 sequential requests whose bodies arrive late on one connection (history), handlers that fail or swap the response after the head is out, upgrade requests carrying a body that are declined. An accepted WebSocket upgrade on a request with a body, pipelined behind a waiting request, with every split of the body and either release order, must receive the frame that follows the body.",
     "note": TRUST + " d=2 quick, 3 thorough (1/2 on the 31..40-deep pipelines).",
 }
 
@@ -86,7 +86,7 @@ CHECKS["C16"] = {
     "text": "Every history up to the depth bound over Set-Cookie ops (a base cookie with up to two varied dimensions out of response host, Domain, Path, response path, Secure, "
             "expiry form, name - 157 to 400 ops), clock ticks, clear, clear_domain, save+load and mutating filter_cookies calls is executed on the real CookieJar; in every "
             "reachable canonical state (reference store + all jar side tables) 50 request URLs (5 related hosts x 2 schemes x 5 paths) are queried and compared with an "
-            "independent RFC 6265 store: no value the reference would not send (host-only, domain, path, Secure, expiry, foreign-domain acceptance), none missing. Paths with repeated trailing slashes and malformed Max-Age combined with Expires are part of the dimensions.",
+            "independent RFC 6265 store: no value the reference would not send (host-only, domain, path, Secure, expiry, foreign-domain acceptance), none missing. Paths with repeated trailing slashes and malformed Max-Age combined with Expires are part of the dimensions. Header shapes include unknown attributes (valueless / with a value), a second attribute-only Set-Cookie header in the same response, an upper-case Domain and a 400-digit Max-Age.",
     "note": TRUST + " Set-Cookie enters through update_cookies_from_headers (the ClientSession path); clock = aiohttp.cookiejar.time rebound; no public-suffix list; "
             "when several same-named cookies match, the jar's single value must be one of the reference's.",
 }
@@ -100,7 +100,7 @@ CHECKS["C14"] = {
             "resources (nested once) and domain / mask-domain sub-applications are built on a real web.Application; each is queried with 199 raw request paths "
             "(percent-encoded, empty and repeated segments) x GET/POST/PUT (x 7 Host values) through the real request parser and UrlDispatcher.resolve and compared with the "
             "documented rule computed from the template text: handler, match_info, 404 vs 405 and the allowed set.  url_for o resolve = identity over 16 parameter values per "
-            "variable (also under mounted prefixes), and every normalize_path_middleware redirect over all <=3-4 token targets from a 12-token alphabet stays on-site. All queries of a table run on one long-lived router; an answer that differs from a fresh router's is reported as history-dependent.",
+            "variable (also under mounted prefixes), and every normalize_path_middleware redirect over all <=3-4 token targets from a 12-token alphabet stays on-site. All queries of a table run on one long-lived router; an answer that differs from a fresh router's is reported as history-dependent. Domain applications nested in mounted applications, and the accumulation of allowed methods across a mounted application, are part of the tables.",
     "note": TRUST + " quick caps the pair/triple sections at the stated pools (reported as pools, not caps); a mounted sub-application claims its subtree and a matching domain "
             "sub-application is final, as the code documents.",
 }
@@ -113,7 +113,7 @@ CHECKS["C12"] = {
             "form, one token per violation class of the statement, sizes max-1/max/max+1, compressed and decompression-bomb tokens) and up to 3 (4 in thorough) over a "
             "core alphabet, for 5-7 (compress, decode_text, max_msg_size) configurations, are fed to the real reader whole, under every single cut, every pair of cuts "
             "and byte-at-a-time.  Messages up to the first violation, the close code, 'nothing delivered after the error', independence of segmentation and the "
-            "retained-bytes bound are checked on every run. The application's view is taken through the queue's read path (prompt and late consumer, with and without end of connection), and 1300-frame histories on one reader check that nothing accumulates from frame to frame.",
+            "retained-bytes bound are checked on every run. The application's view is taken through the queue's read path (prompt and late consumer, with and without end of connection), and 1300-frame histories on one reader check that nothing accumulates from frame to frame. An application that does not read must see the transport paused after a bounded number of (also empty) messages; what arrives after the reader ended must not be retained by the client protocol; and the real server and client handshakes are run with every offer/answer to check that RSV1 is accepted exactly when permessage-deflate was agreed on the wire.",
     "note": TRUST + " The protocol object behind the data queue is a pause/resume stub; non-minimal length encodings and mask direction are not judged; "
             "for a corrupt deflate stream any error is accepted (no code is specified).",
 }
@@ -189,7 +189,7 @@ CHECKS["C19"] = {
             "and fed to a real StreamReader under every single cut and byte-at-a-time (<= 400 bytes) or every cut within 6 bytes of a boundary and at the chunk "
             "thresholds, and read back through read(decode), read_chunk(64 / 8192)+decode, readline and release; parts, headers, names, filenames and content must "
             "equal the input, size must equal the bytes written.  termination: every single-byte deletion, duplication, substitution (6 symbols) and truncation of 5 "
-            "small bodies x 3 reading modes must end in parts or an error within the step horizon.  limits: header size/count and client_max_size cases x cuts. Also partial consumption: one readline()/read_chunk() then next(), nested readers skipped or left half-read; forms with the _charset_ field; every ordered pair of part encodings.",
+            "small bodies x 3 reading modes must end in parts or an error within the step horizon.  limits: header size/count and client_max_size cases x cuts. Also partial consumption: one readline()/read_chunk() then next(), nested readers skipped or left half-read; forms with the _charset_ field; every ordered pair of part encodings. The same bodies are also produced through as_bytes(), transfer-encoded form fields are read through Request.post() under every cut, and bodies of 70 parts check that per-part limits are per part.",
     "note": TRUST + " Contents that contain the delimiter at a line start are not valid multipart material and are excluded; a name or filename may come back "
             "percent-encoded if it decodes to the original; every reader run is under a wall-clock deadline (a loop becomes a violation).",
 }
@@ -203,7 +203,7 @@ CHECKS["C15"] = {
             "strings) plus 19 classic payloads, sent as raw request lines to a real web.Application with add_static, for follow_symlinks x show_index; every file's "
             "content names its real location, so a 200/206 body must be an inside file (or reached through a named symlink when following is on) and listings appear "
             "only with show_index.  ranges: 96 well-formed and 14 malformed Range values x file sizes {0,1,2,5} x 13 conditional-header cases x GET/HEAD; status, "
-            "Content-Range, Content-Length and body must be mutually consistent and equal the RFC 9110 slice; preconditions must give 304/412 without a body.",
+            "Content-Range, Content-Length and body must be mutually consistent and equal the RFC 9110 slice; preconditions must give 304/412 without a body. Conditional requests that echo the ETag the server actually sent (plain file and pre-compressed sibling), and If-Range with entity-tags, are part of the range section.",
     "note": TRUST + " The tree lives in a scratch directory created and removed by the check; file I/O executor jobs run inline and loop.sendfile is unavailable "
             "(aiohttp's fallback path); a malformed Range may be ignored or refused; POSIX only.",
 }
@@ -218,7 +218,7 @@ CHECKS["C17"] = {
             "the requests it receives through the independent RFC 9112 reader.  Judged per hop: caller Authorization / Cookie / Proxy-Authorization / cookies= only "
             "while the whole chain stayed on the first origin (no resurrection on A->B->A), Location credentials only on their own origin, jar cookies re-selected "
             "for the hop's host, method and body per the documented table, request count vs max_redirects, refusal of non-HTTP targets, history order, every "
-            "connection released. Also 3xx responses without Location (first hop, behind a redirect, at the max_redirects boundary).",
+            "connection released. Also 3xx responses without Location (first hop, behind a redirect, at the max_redirects boundary). Chains of three mixed hops, compress/expect100 request options, a caller-supplied Host header, max_redirects=0, and a pooled connection that dies as the redirected request arrives (transparent retry) are included.",
     "note": TRUST + " A redirect chain is sequential, so the default schedule is the only schedule; TLS is not modelled (an https origin is a distinct connection key).",
 }
 
@@ -264,7 +264,7 @@ CHECKS["C02"] = {
             "compression; explicit length; force_close; custom reason; repeated headers; HTTP/1.0 client) against a canonical request.  Both ends are real; the "
             "bytes of each direction are delivered whole, up to the head end or next line, 1 byte or 2048 bytes at a time, and every schedule with <= d "
             "deviations is run.  What the handler saw must equal what was issued, what the caller got must equal what was returned, both ends must agree on "
-            "keep-alive at rest, and a second request on the session must be answered. Also client options (read_bufsize, sock_read) with idle time before the second request.",
+            "keep-alive at rest, and a second request on the session must be answered. Also client options (read_bufsize, sock_read) with idle time before the second request. A second request carrying the caller's own Host header, retried after the server dropped the idle connection, must arrive unchanged.",
     "note": TRUST + " d=1 quick, 2 thorough. Repeated field lines are compared in their combined form (the parser's headers mapping joins them); file bodies come "
             "from scratch temp files without kernel sendfile; handlers that the API refuses (chunked on HTTP/1.0, chunked FileResponse) are not in the grammar.",
 }
